@@ -238,7 +238,16 @@ def _joins(rec, case):
     mp = assemble.Multipatch(patches)
     N = [int(np.prod([k.numdofs for k in kvs]))] * npatch
     Nt = tuple(k.numdofs for k in kvs)
-    for j in order:
+    # staged histories: a third of the cases finalize and query the object between joins (glue, look, glue further)
+    staged = (case['idx'] % 3 == 1)
+    sig = dict(sig, staged=staged)
+    for step, j in enumerate(order):
+        if staged and step > 0 and rng.random() < 0.6:
+            rec.count('staged_finalize_between_joins')
+            ok, _ = guarded(rec, c, dict(sig, stage='finalize'), mp.finalize)
+            if not ok: return
+            ok, good = guarded(rec, c, dict(sig, stage='queries'), _check_final, rec, c, sig, mp, N)
+            if not ok: return
         p1, b1, p2, b2 = joins[j]
         before = len(getattr(mp, '_verif_shadow', {'calls': []})['calls'])
         ok, _ = guarded(rec, c, sig, mp.join_boundaries, p1, b1, p2, b2, flips[j])
@@ -373,13 +382,37 @@ def _reparam(rng, kvs, geo, dim):
         kvl = [kvl[1], kvl[0]]; C = np.swapaxes(C, 0, 1)
     return tuple(kvl), bspline.BSplineFunc(tuple(kvl), np.ascontiguousarray(C))
 
+def _ring_patches(rng):
+    """A closed ring of k >= 2 B-spline sectors around the origin: neighbours share a radial face, and for k = 2 the two patches
+    share two faces.  Control points of shared faces are computed from the same integers, so they coincide bitwise."""
+    from pyiga import bspline
+    k = int(rng.choice([2, 2, 3, 4])); p = int(rng.integers(1, 3)); ns = int(rng.integers(p + 1, p + 4)); nt = int(rng.integers(p + 1, p + 3))
+    kv_s = bspline.make_knots(p, 0.0, 1.0, ns - p); kv_t = bspline.make_knots(p, 0.0, 1.0, nt - p)
+    nang = k * (ns - 1)
+    ang = [2 * np.pi * a / nang for a in range(nang)]
+    rad = np.linspace(1.0, 2.0, nt) + np.concatenate(([0.0], rng.uniform(-0.1, 0.1, nt - 2), [0.0]))
+    wob = 1.0 + 0.15 * rng.uniform(-1, 1, nang)           # the ring need not be circular
+    out = []
+    for j in range(k):
+        C = np.zeros((ns, nt, 2))
+        for a in range(ns):
+            g = (j * (ns - 1) + a) % nang
+            for b in range(nt):
+                C[a, b] = (rad[b] * wob[g] * np.cos(ang[g]), rad[b] * wob[g] * np.sin(ang[g]))
+        kvs = (kv_s, kv_t)
+        out.append((kvs, bspline.BSplineFunc(kvs, C)))
+    return out
+
 def _detect(rec, case):
     from pyiga import assemble
     from verif.gen import rng_for
     from verif.api import guarded
     rng = rng_for('C14d', case['seed'], case['idx'])
     dim = 2 if case['idx'] % 3 else 3
-    for _ in range(20):
+    if dim == 2 and case['idx'] % 4 == 1:
+        patches = _ring_patches(rng)           # pairs of patches with more than one common face
+    else:
+      for _ in range(20):
         kvs, geo, patches, offsets, N = _split_patches(rng, dim)
         if len(patches) >= 2: break
     perm = rng.permutation(len(patches))
